@@ -370,6 +370,32 @@ pub fn structured_faults(doc: &J, sink: &mut dyn FnMut(Faulted)) {
             _ => {}
         }
     }
+    let derived: Vec<i64> = {
+        let mut base: Vec<i64> = Vec::new();
+        for p in &all {
+            let x = match get(doc, p) {
+                Some(J::Num(n)) => n.parse::<i64>().ok().filter(|x| x.abs() <= 1_000_000),
+                Some(J::Arr(a)) => Some(a.len() as i64),
+                _ => None,
+            };
+            if let Some(x) = x {
+                if !base.contains(&x) && base.len() < 12 {
+                    base.push(x);
+                }
+            }
+        }
+        let mut out: Vec<i64> = Vec::new();
+        for a in &base {
+            for b in &base {
+                for x in [a + b, (a - b).abs()] {
+                    if !out.contains(&x) && out.len() < 40 {
+                        out.push(x);
+                    }
+                }
+            }
+        }
+        out
+    };
     for p in &all {
         let node = get(doc, p).unwrap();
         let here = describe(doc, p);
@@ -459,6 +485,13 @@ pub fn structured_faults(doc: &J, sink: &mut dyn FnMut(Faulted)) {
                     alts.push(i.wrapping_neg().to_string());
                 }
                 alts.extend(other_nums.iter().cloned());
+                // integers that LOOK consistent: sums and differences of the document's own
+                // small integers and array lengths (k := len(t) + n, n := len(t) - 1, ...)
+                if n.parse::<i64>().is_ok() {
+                    alts.extend(derived.iter().map(|x| x.to_string()));
+                }
+                alts.sort();
+                alts.dedup();
                 for alt in alts {
                     if &alt == n {
                         continue;
@@ -613,6 +646,99 @@ pub fn ndarray_resizes(doc: &J, sink: &mut dyn FnMut(Faulted)) {
                 nd.resize(nr * nc, filler.clone());
                 emit(vec![nr, nc], nd, format!("{}x{} -> {}x{}", r, c, nr, nc));
             }
+        }
+    }
+}
+
+/// The small forms a member value can take: zero / one for numbers, empty / one element for
+/// arrays (stored ndarrays consistently, `dim` and `data` together), empty string, null.
+fn small_forms(j: &J) -> Vec<(J, &'static str)> {
+    let mut out: Vec<(J, &'static str)> = Vec::new();
+    match j {
+        J::Num(_) => {
+            out.push((J::Num("0".into()), "0"));
+            out.push((J::Num("1".into()), "1"));
+        }
+        J::Str(_) => out.push((J::Str("\"\"".into()), "empty string")),
+        J::Arr(a) => {
+            out.push((J::Arr(vec![]), "empty"));
+            if let Some(f) = a.first() {
+                out.push((J::Arr(vec![f.clone()]), "one element"));
+            }
+        }
+        J::Obj(m) => {
+            let find = |k: &str| m.iter().position(|(n, _)| n.trim_matches('"') == k);
+            if let (Some(di), Some(da), Some(_)) = (find("dim"), find("data"), find("v")) {
+                if let (J::Arr(dims), J::Arr(data)) = (&m[di].1, &m[da].1) {
+                    let nd = dims.len();
+                    let mut e = m.clone();
+                    e[di].1 = J::Arr(vec![J::Num("0".into()); nd]);
+                    e[da].1 = J::Arr(vec![]);
+                    out.push((J::Obj(e), "empty array"));
+                    if let Some(f) = data.first() {
+                        let mut o = m.clone();
+                        o[di].1 = J::Arr(vec![J::Num("1".into()); nd]);
+                        o[da].1 = J::Arr(vec![f.clone()]);
+                        out.push((J::Obj(o), "one-element array"));
+                    }
+                }
+            }
+        }
+        _ => {}
+    }
+    if *j != J::Null {
+        out.push((J::Null, "null"));
+    }
+    out
+}
+
+/// Every combination of the top-level members of a document (inside a one-member wrapper
+/// if there is one) each kept or replaced by one of its small forms - up to `cap` documents.
+pub fn toplevel_combos(doc: &J, cap: usize, sink: &mut dyn FnMut(Faulted)) {
+    let mut root: Path = vec![];
+    if let J::Obj(m) = doc {
+        if m.len() == 1 {
+            if let J::Obj(_) = &m[0].1 {
+                root = vec![0];
+            }
+        }
+    }
+    let members: Vec<(String, J)> = match get(doc, &root) {
+        Some(J::Obj(m)) if m.len() >= 2 && m.len() <= 6 => m.clone(),
+        _ => return,
+    };
+    let forms: Vec<Vec<(J, &'static str)>> = members.iter().map(|(_, v)| small_forms(v)).collect();
+    let radix: Vec<usize> = forms.iter().map(|f| f.len() + 1).collect();
+    let total: usize = radix.iter().product();
+    let mut emitted = 0usize;
+    for code in 1..total {
+        let mut c = code;
+        let mut d = doc.clone();
+        let mut what = Vec::new();
+        let mut changed = 0;
+        for (i, r) in radix.iter().enumerate() {
+            let digit = c % r;
+            c /= r;
+            if digit > 0 {
+                let (val, label) = &forms[i][digit - 1];
+                if let Some(J::Obj(mm)) = get_mut(&mut d, &root) {
+                    mm[i].1 = val.clone();
+                }
+                what.push(format!("{} := {}", members[i].0.trim_matches('"'), label));
+                changed += 1;
+            }
+        }
+        if changed < 2 {
+            continue; // single alterations are enumerated elsewhere
+        }
+        sink(Faulted {
+            kind: "VALUE_ALTER",
+            what: format!("members altered together: {}", what.join(", ")),
+            text: render(&d),
+        });
+        emitted += 1;
+        if emitted >= cap {
+            break;
         }
     }
 }
